@@ -37,6 +37,13 @@ CASES = [
     ("ok", "fn f(&self, o: &Self) -> Self { if self.degree() < 3 { self.clone() } else { other_strategy(o) } }", "other_strategy o",
      {"callees": {"other_strategy": ([P.P_FF], P.P_FF, True)}}),                                                 # untranslated callee = parameter
     ("ok", "fn f(&self) -> Self { let Ok(d) = usize::try_from(self.degree()) else { return Polynomial::zero(); }; Polynomial::new(vec![FF::ONE; d]) }", "match (TF.PolyStd.toUsize?", {}),
+    # ---- S4: the forms of `pow`
+    ("ok", "fn f(&self, e: u32) -> Self { let Some(b) = e.checked_ilog2() else { return Polynomial::new(vec![FF::ONE; 1]); }; Polynomial::new(vec![FF::ZERO; 1]) }",
+     "(if e == 0 then none else some (Nat.log2 e))", {}),                                                      # None exactly for 0
+    ("ok", "fn f(&self, e: u32, s: u32) -> bool { (e >> s & 1) == 1 }", "(TF.PolyStd.ushr? 32 e s).bind", {}),   # checked shift amount
+    ("ok", "fn f(&self, e: u64, s: u64) -> bool { (e >> s & 1) == 1 }", "TF.PolyStd.ushr? 64 e s", {}),
+    ("ok", "fn f(&self, n: u32) -> Self { let mut v = vec![FF::ZERO; 3]; for i in 0..=n { v[0] += self.coefficients[0]; if i == n { v[1] += self.coefficients[0]; } } Polynomial::new(v) }",
+     "List.range' 0 (n + 1 - 0)", {}),                                                                         # `if` without else in tail position
     # ---- refused
     ("refuse", "fn f(&self) -> isize { loop { } }", None, {}),                                                   # loop
     ("refuse", "fn f(&self) -> isize { let mut d = 0; while d < 3 { d += 1; } d }", None, {}),                   # while without fuel in the table
